@@ -2,10 +2,12 @@
    ExtrOcamlBasic only: bool, option, unit, list, prod, sumbool, sumor map to OCaml's own types
    and andb/orb to && / ||.  nat, positive, N, Z, ascii, string stay the inductive types. *)
 From Coq Require Extraction ExtrOcamlBasic.
-From Verif Require Import Base.Text Gen.GenTokens Gen.GenLegend Model.Lexer Model.SemTokens Spec.LspClass Model.Decode Gen.GenDecoders.
+From Verif Require Import Base.Text Gen.GenTokens Gen.GenLegend Model.Lexer Model.SemTokens Spec.LspClass Model.Decode Gen.GenDecoders Model.Literals.
 Extraction Language OCaml.
 Extraction "model.ml"
   tok_name tok_index all_kinds
   preprocess lex_items tokens_of errors_of insert_terminators tokenize_program in_domain
   legend legend_of lsp_semantic_tokens decode_rel allowed_classes must_highlight
-  decoders cascade enc8 enc16 enc1252 dec8.
+  decoders cascade enc8 enc16 enc1252 dec8
+  integer_new try_hex try_octal try_binary fixed_parse fixed_of_integer try_from_units
+  npu_day npu_hour npu_minute npu_second npu_milli date_literal daytime address string_chars.
